@@ -55,13 +55,21 @@ ZTYPES = ["float", "np"]
 
 
 def NS(tier):
-    return [2, 4, 6] if tier == "quick" else [2, 4, 6, 8, 10, 12]
+    return [2, 4, 6] if tier == "quick" else [2, 3, 4, 5, 6, 7, 8, 10, 12, 14, 16]
 
 
 def BOUNDS(tier):
-    return {"N": NS(tier), "N_big(span of 26 unit fields + dense field)": BIG_NS[tier], "wavelengths": WVLS, "input_spacings": D1S, "magnifications": MAGS,
-            "distances": ZS, "focal_lengths": FOCALS, "z_scalar_types": ZTYPES,
+    return {"N": NS(tier), "N_big(span of 26 unit fields + dense field)": BIG_NS[tier], "wavelengths": WVLS, "input_spacings": D1S, "magnifications": _mags(tier),
+            "distances": _zs(tier), "focal_lengths": FOCALS if tier == "quick" else FOCALS + [-0.1, 30.0, 400.0], "z_scalar_types": ZTYPES,
             "propagators": ["angular_spectrum", "one_step", "two_step", "lens"]}
+
+
+def _zs(tier):
+    return ZS if tier == "quick" else ZS + [1.0, -1.0, 37.5, -7.0e4, 3.0e5]
+
+
+def _mags(tier):
+    return MAGS if tier == "quick" else MAGS + [0.25, 0.77, 3.0, 1.001]
 
 
 def cases(tier):
@@ -70,14 +78,14 @@ def cases(tier):
     for N in NS(tier):
         for wvl, d1, zt in itertools.product(WVLS, D1S, ZTYPES):
             base = "N=%d:lam=%g:d1=%g" % (N, wvl, d1)
-            for z in ZS:
-                for m in MAGS:
+            for z in _zs(tier):
+                for m in _mags(tier):
                     for prop in ("angular_spectrum", "two_step"):
                         yield Case("%s:%s:m=%g:z=%g:ztype=%s" % (prop, base, m, z, zt),
                                    {"prop": prop, "N": N, "wvl": wvl, "d1": d1, "m": m, "z": z, "zt": zt})
                 yield Case("one_step:%s:z=%g:ztype=%s" % (base, z, zt),
                            {"prop": "one_step", "N": N, "wvl": wvl, "d1": d1, "z": z, "zt": zt})
-            for f in FOCALS:
+            for f in (FOCALS if tier == "quick" else FOCALS + [-0.1, 30.0, 400.0]):
                 yield Case("lens:%s:f=%g:ztype=%s" % (base, f, zt),
                            {"prop": "lens", "N": N, "wvl": wvl, "d1": d1, "z": f, "zt": zt})
     # corners of the parameter space far from the adaptive-optics lattice above ("all wavelengths, samplings and
